@@ -187,9 +187,9 @@ def hash_cfgs(tier):
         double = [(2, 3, 1, 4), (3, 4, 1, 5)]
         bucket = [(2, 1, 2, 3), (2, 1, 1, 4), (3, 1, 1, 5)]
     else:
-        single = [(2, 0, 6), (2, 2, 5), (3, 1, 7), (3, 2, 6), (4, 1, 7), (5, 1, 7), (8, 1, 9)]
-        double = [(2, 3, 1, 5), (2, 4, 2, 5), (3, 4, 1, 6), (3, 6, 1, 7), (4, 8, 1, 8)]
-        bucket = [(2, 1, 2, 4), (2, 0, 3, 4), (3, 1, 1, 6), (3, 2, 2, 5), (4, 1, 2, 6)]
+        single = [(2, 1, 5), (2, 2, 4), (3, 1, 6), (3, 2, 5), (4, 1, 6), (5, 0, 7), (8, 1, 9)]
+        double = [(2, 3, 1, 5), (2, 4, 2, 4), (3, 4, 1, 6), (3, 6, 1, 6), (4, 8, 1, 7)]
+        bucket = [(2, 1, 2, 4), (2, 1, 3, 3), (3, 1, 1, 6), (3, 2, 2, 4), (4, 1, 2, 5)]
     out = []
     for k in ("HP", "BHP"):
         for il, hb, L in single:
@@ -307,7 +307,7 @@ def pb_jobs(tier):
 
 
 def shrink_jobs(tier):
-    L = 3 if tier == "quick" else 5
+    L = 3 if tier == "quick" else 4
     kinds = [("HP", {"inputLen": 2, "hashBits": 1}), ("DHP", {"inputLen": 2, "inputLen2": 3, "hashBits": 1}), ("BUP", {"inputLen": 2, "hashBits": 1, "bucketSize": 2}),
              ("BUP", {"inputLen": 2, "hashBits": 1, "bucketSize": 3})]
     if tier != "quick":
@@ -431,7 +431,7 @@ def spec_C08(tier):
 # ---------------------------------------------------------------- suffix.Segments (C10)
 
 def spec_C10(tier):
-    NA, NT = (6, 5) if tier == "quick" else (8, 7)
+    NA, NT = (6, 5) if tier == "quick" else (7, 6)
     jobs = []
     for mode, N in (("segArray", NA), ("segText", NT)):
         for n in range(N + 1):
@@ -470,7 +470,6 @@ def sap_cfgs(tier, kind):
 
 def sap_jobs(tier, kinds=("gsap", "osap"), scripts=(0, 1, 2, 3, 4), N=None, lite=False):
     """lite: the subset of configurations used by the properties that share these runs with C11/C12 (quick tier only)"""
-    lite = lite and tier == "quick"
     if N is None:
         N = 5 if tier == "quick" else 6
     NB = 8 if tier == "quick" else 10
@@ -537,6 +536,19 @@ def spec_C12(tier):
     j, b = kernel_jobs(tier, ["lcp", "bitset"])
     jobs += j
     bounds.update(b)
+    # blocks re-parsed after NoTrailingLiterals: every Parse is called with the flag; 12 bytes over two letters (the first three pinned per job)
+    for pins in range(8):
+        pp = dict(B=16, S=4, Wn=16, bs=5, mm=3, N=12, k=0, script=0, alpha=2, flagsfix=1)
+        for i in range(3):
+            pp["pin[%d]" % i] = (pins >> i) & 1
+        jobs.append(J("gsap-ntl-%d" % pins, "zzH_gsapScript", params=pp, stubs=SAP_STUBS))
+    if tier != "quick":
+        for pins in range(8):
+            pp = dict(B=16, S=4, Wn=16, bs=4, mm=2, N=12, k=0, script=0, alpha=2, flagsfix=1)
+            for i in range(3):
+                pp["pin[%d]" % i] = (pins >> i) & 1
+            jobs.append(J("gsap-ntl2-%d" % pins, "zzH_gsapScript", params=pp, stubs=SAP_STUBS))
+    bounds["NoTrailingLiterals streams"] = "all 12-byte streams over an arbitrary two-letter alphabet, BlockSize 5, MinMatchLen 3, every Parse with NoTrailingLiterals (uncovered bytes are parsed again)"
     return {"jobs": jobs, "bounds": bounds, "assumptions": SAP_ASSUME,
             "outside": ["streams longer than the bound (suffix ranks stay inside one bitset word; multi-word bitsets: see the bitset kernel job)", "histories with Parse(nil)"],
             "explanation": "for every emitted match at position q and every earlier buffered position f the common prefix clipped at the block end is <= MatchLen; when BufferSize <= WindowSize "
@@ -571,7 +583,7 @@ def spec_C13(tier):
                               params=dict(kp, L=5, N=4, ld=5, w=1, nn=4, mode=mode, bs=4, PB=N + 3, withNil=1, N2=3, Wn=wn), uf_mul=True))
     NS = 5 if tier == "quick" else 6
     for kind in ("GSAP", "OSAP"):
-        pf = 0 if tier == "quick" else 1  # flags of the calls before the Reset: fixed to 0 (quick) or symbolic
+        pf = 0  # flags of the calls before the Reset are fixed to 0
         for tag, cp in sap_cfgs(tier, kind.lower())[1:3] if tier == "quick" else sap_cfgs(tier, kind.lower())[:4]:
             for pre in (0, 1, 2, 3):
                 for mode in (0, 1):
@@ -726,7 +738,7 @@ def spec_C16(tier):
     j4, b4 = shrink_jobs(tier)
     jobs += j4
     bounds.update(b4)
-    j3, b3 = sap_jobs(tier, lite=True) if tier != "quick" else sap_jobs(tier, scripts=(0, 2, 4), lite=True)
+    j3, b3 = sap_jobs(tier, scripts=(0, 2, 4), lite=True)
     jobs += j3
     bounds["behaviour: GSAP/OSAP"] = b3
     L, PB, BS, RD = (3, 4, 3, 2)
@@ -761,7 +773,7 @@ def spec_C09(tier):
                 for v in range(k):
                     rec(prefix + [v])
             rec([])
-    NL = 5 if tier == "quick" else 7
+    NL = 5 if tier == "quick" else 6
     for n in range(NL + 1):
         jobs.append(J("lcp-n%d" % n, "zzH_lcpTable", pkg="suffix", params={"n": n}))
     j, b = kernel_jobs(tier, ["matchLen"])
